@@ -380,6 +380,13 @@ def outcome(design, rng, perm):
         return type(e).__name__ + "-but-accepted-by-a-second-elaborate()", src, str(e)[:300]
       except Exception:
         pass
+      # ... and a SECOND INSTANCE of the same classes (per-class caches were filled while the first one was being rejected)
+      try:
+        top2 = getattr(mod, design["top"])()
+        top2.elaborate()
+        return type(e).__name__ + "-but-accepted-for-a-second-instance-of-the-class", src, str(e)[:300]
+      except Exception:
+        pass
       return type(e).__name__, src, str(e)[:300]
   finally:
     G.unload(mod)
@@ -549,7 +556,57 @@ def run_lambda_variants(sh, case):
     G.unload(mod)
 
 
+TWICE_SRC = """
+from pymtl3 import *
+class TTop(Component):
+  def construct(s):
+    s.in_ = InPort(16); s.w = Wire(16); s.out = OutPort(1); s.o4 = OutPort(4)
+    @update
+    def wr(): s.w @= s.in_
+    @update
+    def rd():
+      s.out @= {read1}
+      s.o4 @= {read4}
+"""
+
+
+def run_twice_probe(sh, case):
+  """a class whose update block uses a form the read / write analysis refuses: EVERY instance of the class built in this process
+  is refused alike (the first refusal must not leave per-class results behind that let the next instance through); a class
+  with supported forms is accepted every time and computes the right values"""
+  from pymtl3 import DefaultPassGroup
+  rng = sh.rng("twice", case)
+  a = rng.randrange(0, 8); b = rng.randrange(a + 4, 17)
+  forms1 = [(f"s.w[{a}:{b}][1]", False), (f"s.w[{a + 1}]", True), (f"s.w[{a}:{b}][0:2][0]", False)]
+  forms4 = [(f"s.w[{a}:{b}][0:4]", None), (f"s.w[{a}:{a + 4}]", True)]
+  (r1, ok1), (r4, ok4) = rng.choice(forms1), rng.choice(forms4)
+  src = TWICE_SRC.format(read1=r1, read4=r4)
+  mod = G.load_source(src, "c09twice")
+  try:
+    outs = []
+    for k in range(3):
+      try:
+        top = mod.TTop(); top.elaborate(); outs.append(None)
+      except Exception as e:
+        outs.append(type(e).__name__)
+    sh.count("elaborations", 3); sh.count("same_class_built_three_times")
+    if len(set(outs)) != 1:
+      sh.violation("instances-of-one-class-judged-differently-in-one-process", {"outcomes": outs, "reads": [r1, r4], "design_source": src}, case=("twice", case)); return
+    if outs[0] is None:
+      top.apply(DefaultPassGroup()); top.sim_reset()
+      x = rng.getrandbits(16); top.in_ @= x; top.sim_eval_combinational()
+      e1 = (x >> (a + 1)) & 1
+      e4 = (x >> a) & 15
+      if int(top.out) != e1 or int(top.o4) != e4:
+        sh.violation("legal-design-computes-a-wrong-value", {"reads": [r1, r4], "in_": hex(x), "got": [int(top.out), int(top.o4)], "expected": [e1, e4], "design_source": src}, case=("twice", case))
+    else: sh.count("refused_forms_refused_every_time")
+  finally:
+    G.unload(mod)
+
+
 def run_shard(sh):
+  for case in range(6 if sh.tier == "quick" else 60):
+    run_twice_probe(sh, sh.idx * 1000 + case)
   for case in range(12 if sh.tier == "quick" else 200):
     run_holey(sh, sh.idx * 1000 + case)
   for case in range(6 if sh.tier == "quick" else 60):
